@@ -159,15 +159,10 @@ def check_mean(prog, rep, m):
             cond_key(neg_cond(means[0].guards[0])) == cond_key(copies[0].guards[0])
         rep.add('F2', f, entry, 'mean / copy-through are complementary', f.node.lineno, comp,
                 'each cell takes exactly one of the two branches')
-    # NaN-aware equality in the excludes loop
-    eq = None
-    for n in f.own_nodes():
-        if isinstance(n, ast.For) and norm(n.iter) == f.params[1]:
-            for i in [x for x in n.body if isinstance(x, ast.If)]:
-                eq = i
-    okq = eq is not None and is_nan_aware_eq(prog, f, eq.test) and any(norm(s) == 'exclude = True' for s in eq.body)
-    rep.add('F2', f, entry, 'excluded test: %s' % (norm(eq.test) if eq is not None else None), eq.lineno if eq is not None else f.node.lineno,
-            okq, 'the default exclusion list is [NaN]: the equality test must be NaN-aware')
+    # the exclusion predicate: the copy-through branch is taken exactly when the cell value equals some element of the
+    # exclusion list under NaN-aware equality - decided by evaluating the branch condition (flag loops are unfolded
+    # through their break paths; helpers are inlined) on a table of (value, element, isnan(value), isnan(element))
+    check_exclusion(prog, rep, f, entry, k, copies[0] if len(copies) == 1 else None, data)
     full = [lp for lp in k.loops if lp.kind in ('range', 'prange')]
     okl = any(lp.lo == Rat.const(0) and lp.hi == shp(data, 0) for lp in full) and any(lp.lo == Rat.const(0) and lp.hi == shp(data, 1) for lp in full)
     rep.add('F2', f, entry, 'all cells visited', f.node.lineno, okl, 'rows 0..rows, cols 0..cols')
@@ -184,6 +179,96 @@ def check_mean(prog, rep, m):
     ok = len(init) == 1 and norm(init[0]).replace(' ', '') in ('agg.data.astype(float)', 'agg.data.astype(np.float64)', 'agg.data.astype(np.float32)')
     rep.add('F2', pub, entry, 'out = %s' % (norm(init[0]) if init else None), pub.node.lineno, ok,
             'the passes start from a float copy of the input')
+
+
+def check_exclusion(prog, rep, f, entry, k, copy, data):
+    from ..kutil import CannotEvaluate, eval_cond_full, guard_atoms
+    from fractions import Fraction as F
+    if copy is None or len(copy.idx) != 2:
+        rep.add('F2', f, entry, 'excluded test', f.node.lineno, None, 'copy-through store not identified')
+        return
+    line = copy.node.lineno
+    v = App('read', [data, copy.idx[0], copy.idx[1]])
+    guards = list(copy.guards)
+    atoms = guard_atoms(guards)
+    flags = [a for a in atoms if isinstance(a, App) and a.name == 'loopout']
+    paths = None
+    shown = cond_repr(guards[0])[:160] if guards else 'unconditional'
+    if flags:
+        # flag form: `flag = False; for e in excludes: if TEST: flag = True; break` - the flag is set on the break paths
+        if len(flags) != 1 or len(guards) != 1:
+            rep.add('F2', f, entry, 'excluded test: %s' % shown, line, None, 'several flags')
+            return
+        fl = flags[0]
+        L = next((lp for lp in k.loops if Rat.sym(lp.var) == fl.args[1]), None)
+        name = next(iter(fl.args[0].atoms())).name if isinstance(fl.args[0], Rat) else None
+        if L is None or name is None:
+            rep.add('F2', f, entry, 'excluded test: %s' % shown, line, None, 'flag loop not found')
+            return
+        pre = L.pre.get(name)
+        setters = [(g, envb.get(name)) for g, envb, nb in getattr(L, 'breaks', [])]
+        unchanged = name in getattr(L, 'carried', {}) and L.carried[name][1] == Rat.atom(App('bool', [('truth', L.carried[name][0])]))
+        okflag = pre == ('const', False) and setters and all(val == ('const', True) for g, val in setters) and unchanged
+        flag_atom = fl
+        if not okflag:
+            rep.add('F2', f, entry, 'excluded test: %s' % shown, line, None if okflag else False,
+                    'the exclusion flag must start False and be set True exactly on the matching paths '
+                    '(start %r, setters %d, unchanged otherwise %s)' % (pre, len(setters), unchanged))
+            return
+        paths = [g for g, val in setters]
+        atoms = set()
+        for g in paths:
+            atoms |= guard_atoms(g)
+        loop_of = L
+    else:
+        paths = [guards]
+        loop_of = None
+        flag_atom = None
+    es = [a for a in atoms if isinstance(a, App) and a.name == 'elem']
+    nv = [a for a in atoms if isinstance(a, App) and a.name == 'isnan' and a.args[0] == Rat.atom(v)]
+    ne = [a for a in atoms if isinstance(a, App) and a.name == 'isnan' and es and a.args[0] == Rat.atom(es[0])]
+    other = [a for a in atoms if a not in es + nv + ne + [v] and not isinstance(a, Sym) and
+             not (isinstance(a, App) and a.name in ('ite', 'bool', 'abs', 'min', 'max'))]
+    if len(es) != 1 or other:
+        rep.add('F2', f, entry, 'excluded test: %s' % shown, line, None if other else False,
+                'the cell value must be compared with the elements of the exclusion list (element reads %d, other quantities %s)' % (
+                    len(es), show(other, 120)))
+        return
+    # the elements come from the whole exclusion list
+    e = es[0]
+    base = e.args[0]
+    bname = next(iter(base.atoms())).name if isinstance(base, Rat) and base.atoms() else str(base)
+    bound = {f.params[1]}
+    for r in getattr(k, 'inlined', []):
+        for p, a in zip(r[0].params, r[1]):
+            if a == ('param', f.params[1]) or (isinstance(a, Rat) and a == Rat.sym(f.params[1])):
+                bound.add(p)
+    okbase = bname in bound
+    res = []
+    try:
+        for title, vv, ev, nvv, nev, want in (('equal numbers', 3, 3, 0, 0, True), ('different numbers', 3, 4, 0, 0, False),
+                                               ('different numbers (reversed)', 4, 3, 0, 0, False),
+                                               ('nearly equal numbers', 3, F(3) + F(1, 10**7), 0, 0, False),
+                                               ('large neighbouring numbers', 10**12, 10**12 + 1, 0, 0, False),
+                                               ('NaN value, NaN element', 1, 2, 1, 1, True), ('NaN value, number element', 1, 2, 1, 0, False),
+                                               ('number value, NaN element', 1, 2, 0, 1, False)):
+            env = {v: F(vv), e: F(ev)}
+            for a in nv:
+                env[a] = F(nvv)
+            for a in ne:
+                env[a] = F(nev)
+            got = any(all(eval_cond_full(g, env) for g in p) for p in paths)
+            if flag_atom is not None:
+                # how the branch uses the flag
+                got = all(eval_cond_full(g, {flag_atom: F(1 if got else 0)}) for g in guards)
+            res.append((title, got, want))
+    except CannotEvaluate as ex:
+        rep.add('F2', f, entry, 'excluded test: %s' % shown, line, None, 'not evaluable: %s' % ex)
+        return
+    bad = [(t, g) for t, g, w in res if g != w]
+    rep.add('F2', f, entry, 'excluded test: %s' % shown, line, not bad and okbase,
+            'a cell is passed through exactly when its value equals an element of the exclusion list, NaN matching NaN (the '
+            'default list is [NaN]); wrong for %s%s' % (bad, '' if okbase else '; elements are not drawn from the exclusion list'))
 
 
 def _mx(a, b):
